@@ -534,8 +534,11 @@ func ruleC13(w *World) {
 			for _, c := range methodCalls(f) {
 				got = append(got, c.name+"@"+c.recv+"("+strings.Join(c.args, ", ")+")")
 			}
+			// the digest step is `sum`, or the exported SumHash that wraps / contains it
 			want := []string{"Reset@" + s + "()", "write@" + s + "(" + data + ")", "sum@" + s + "()"}
-			w.check(strings.Join(got, ";") == strings.Join(want, ";"), "C13.R2", fnKey(f)+"/sequence", f.Pos(), "Reset→write(data)→sum", "sponge ComputeHash sequence is "+strings.Join(got, " ; "))
+			want2 := []string{"Reset@" + s + "()", "write@" + s + "(" + data + ")", "SumHash@" + s + "()"}
+			g := strings.Join(got, ";")
+			w.check(g == strings.Join(want, ";") || g == strings.Join(want2, ";"), "C13.R2", fnKey(f)+"/sequence", f.Pos(), "Reset→write(data)→sum", "sponge ComputeHash sequence is "+strings.Join(got, " ; "))
 		}
 		if f := w.method(spongeT, "Reset"); f != nil {
 			// clears all 25 lanes and empties the buffer
@@ -553,7 +556,14 @@ func ruleC13(w *World) {
 			})
 			w.check(okBuf && okLanes, "C13.R2", fnKey(f)+"/clears", f.Pos(), "Reset zeroes the state lanes and empties the buffer", "sponge Reset does not zero the lanes and empty the buffer")
 		}
-		if f := w.method(spongeT, "sum"); f != nil {
+		sumFn := w.method(spongeT, "sum")
+		if sumFn == nil {
+			sumFn = tailWorker(w.method(spongeT, "SumHash"))
+		}
+		if sumFn == nil {
+			w.undecided("C13.R2", "anchor:sponge-sum", token.NoPos, "unresolved anchor: the sponge's digest step (sum / SumHash)")
+		}
+		if f := sumFn; f != nil {
 			var got []string
 			for _, c := range methodCalls(f) {
 				got = append(got, c.name)
@@ -570,8 +580,10 @@ func ruleC13(w *World) {
 			for _, c := range methodCalls(f) {
 				got = append(got, c.name+"@"+c.recv+"("+strings.Join(c.args, ", ")+")")
 			}
+			// Sum(nil) or Sum of a fresh empty slice (make([]byte, 0, size)): the digest alone
 			want := []string{"Reset@" + s + ".Hash()", "Write@" + s + ".Hash(" + data + ")", "Sum@" + s + ".Hash(nil)"}
-			w.check(strings.Join(got, ";") == strings.Join(want, ";"), "C13.R2", fnKey(f)+"/sequence", f.Pos(), "Reset→Write(data)→Sum(nil)", "SHA-2 ComputeHash sequence is "+strings.Join(got, " ; "))
+			g := strings.ReplaceAll(strings.Join(got, ";"), ".Hash(make([]byte,0))", ".Hash(nil)")
+			w.check(g == strings.Join(want, ";"), "C13.R2", fnKey(f)+"/sequence", f.Pos(), "Reset→Write(data)→Sum(nil)", "SHA-2 ComputeHash sequence is "+strings.Join(got, " ; "))
 		} else {
 			w.undecided("C13.R2", "anchor:"+tn, token.NoPos, "unresolved anchor")
 		}
@@ -809,20 +821,30 @@ func (w *World) ruleBytepad(rule string) {
 		return
 	}
 	wp := P(fn, 1)
-	// find padlen: the length of the make([]byte, padlen) appended last
+	// find padlen: the number of trailing zero bytes of the returned buffer (append or make+copy form)
 	var padExpr ssa.Value
+	var content []string
+	var body ssa.Value
 	for _, r := range returns(fn) {
-		if c, ok := stripConv(r.Results[0]).(*ssa.Call); ok {
-			if b, ok := c.Call.Value.(*ssa.Builtin); ok && b.Name() == "append" {
-				if ms, ok := sliceBase(c.Call.Args[1]).(*ssa.MakeSlice); ok {
-					padExpr = ms.Len
-				}
-			}
+		if lay, ok := bufLayout(r.Results[0]); ok && lay.pad != nil {
+			padExpr, content, body = lay.pad, lay.content, lay.body
 		}
 	}
 	if padExpr == nil {
 		w.undecided(rule, fnKey(fn)+"/padlen", fn.Pos(), "padding idiom not recognised")
 		return
+	}
+	// isContentLen: v is the length of the unpadded content: len(body) in the append form, or a sum of the pieces' lengths
+	isContentLen := func(v ssa.Value) bool {
+		if c, ok := stripConv(v).(*ssa.Call); ok {
+			if b, ok := c.Call.Value.(*ssa.Builtin); ok && b.Name() == "len" && body != nil && (c.Call.Args[0] == body || render(c.Call.Args[0]) == render(body)) {
+				return true
+			}
+		}
+		var t []string
+		var rest []ssa.Value
+		lenTerms(v, map[*ssa.Call]string{}, &t, &rest)
+		return len(rest) == 0 && len(t) > 0 && sameTerms(t, content)
 	}
 	s := render(padExpr)
 	// accepted exact forms, each evaluated over all residues r = len(buf) mod w, for w in the call-site constants
@@ -844,12 +866,10 @@ func (w *World) ruleBytepad(rule string) {
 			}
 		case *ssa.BinOp:
 			if x.Op == token.REM {
-				// len(…) % w
-				if c, ok := stripConv(x.X).(*ssa.Call); ok {
-					if b, ok := c.Call.Value.(*ssa.Builtin); ok && b.Name() == "len" {
-						if m, ok := ev(x.Y, r, wv, d+1); ok && m == wv {
-							return r, true
-						}
+				// (content length) % w
+				if isContentLen(x.X) {
+					if m, ok := ev(x.Y, r, wv, d+1); ok && m == wv {
+						return r, true
 					}
 				}
 			}
@@ -986,37 +1006,200 @@ func (w *World) ruleKmacInitBlock(rule string) {
 			}
 		})
 	}
-	// encodeString / leftEncode feed the whole key: encodeString appends leftEncode(8·len) then all of s
+	// encodeString / leftEncode feed the whole key: encodeString yields leftEncode(8·len) then all of s; bytepad yields
+	// leftEncode(w), the whole input, then zeros — whether built by appends or by copies into a buffer of the full size
 	if es := w.fn(hashPath, "encodeString"); es != nil {
 		sArg := P(es, 0)
-		var apps []string
-		for _, b := range es.DomPreorder() {
-			for _, ins := range b.Instrs {
-				if c, ok := ins.(*ssa.Call); ok {
-					if bi, ok := c.Call.Value.(*ssa.Builtin); ok && bi.Name() == "append" {
-						apps = append(apps, render(c.Call.Args[1]))
-					}
-				}
+		okk, got := false, "?"
+		for _, r := range returns(es) {
+			if lay, ok := bufLayout(r.Results[0]); ok {
+				got = strings.Join(lay.pieces, " ‖ ")
+				okk = len(lay.pieces) == 2 && lay.pieces[0] == fmt.Sprintf("leftEncode((len(%s) * 8))", sArg) && lay.pieces[1] == sArg && lay.pad == nil
 			}
 		}
-		okk := len(apps) == 2 && apps[0] == fmt.Sprintf("leftEncode((len(%s) * 8))", sArg) && apps[1] == sArg
-		w.check(okk, rule, fnKey(es)+"/shape", es.Pos(), "encode_string(S) = left_encode(8·|S|) ‖ S", "encodeString does not append left_encode(8·len) followed by the whole string: "+strings.Join(apps, " ‖ "))
+		w.check(okk, rule, fnKey(es)+"/shape", es.Pos(), "encode_string(S) = left_encode(8·|S|) ‖ S", "encodeString does not yield left_encode(8·len) followed by the whole string: "+got)
 	}
 	if bp := w.fn(hashPath, "bytepad"); bp != nil {
 		in, wv := P(bp, 0), P(bp, 1)
-		var apps []string
-		for _, b := range bp.DomPreorder() {
-			for _, ins := range b.Instrs {
-				if c, ok := ins.(*ssa.Call); ok {
-					if bi, ok := c.Call.Value.(*ssa.Builtin); ok && bi.Name() == "append" {
-						apps = append(apps, render(c.Call.Args[1]))
-					}
-				}
+		okk, got := false, "?"
+		for _, r := range returns(bp) {
+			if lay, ok := bufLayout(r.Results[0]); ok {
+				got = strings.Join(lay.pieces, " ‖ ")
+				okk = len(lay.pieces) == 2 && lay.pieces[0] == "leftEncode("+wv+")" && lay.pieces[1] == in && lay.pad != nil
 			}
 		}
-		okk := len(apps) == 3 && apps[0] == "leftEncode("+wv+")" && apps[1] == in && strings.HasPrefix(apps[2], "make([]byte,")
-		w.check(okk, rule, fnKey(bp)+"/shape", bp.Pos(), "bytepad(X,w) = left_encode(w) ‖ X ‖ 0…", "bytepad does not append left_encode(w), the whole input, then zero padding: "+strings.Join(apps, " ‖ "))
+		w.check(okk, rule, fnKey(bp)+"/shape", bp.Pos(), "bytepad(X,w) = left_encode(w) ‖ X ‖ 0…", "bytepad does not yield left_encode(w), the whole input, then zero padding: "+got)
 	}
+}
+
+// bufLayout: the content of a byte slice built in one of two ways — a chain of appends onto an empty make, or a make of
+// the full length filled front to back by copies — as the sequence of its source pieces, the length terms of that content
+// and, if the buffer is longer than its content, the value giving the number of trailing zero bytes.
+type bufLay struct {
+	pieces  []string
+	content []string  // canonical length terms of the pieces: len(<piece>)
+	pad     ssa.Value // number of trailing zero bytes (nil: none)
+	body    ssa.Value // append form: the slice value holding the content before the padding
+}
+
+func lenTerms(v ssa.Value, copies map[*ssa.Call]string, out *[]string, rest *[]ssa.Value) {
+	v = stripConv(v)
+	if bo, ok := v.(*ssa.BinOp); ok && bo.Op == token.ADD {
+		lenTerms(bo.X, copies, out, rest)
+		lenTerms(bo.Y, copies, out, rest)
+		return
+	}
+	if c, ok := v.(*ssa.Call); ok {
+		if t, isCopy := copies[c]; isCopy {
+			*out = append(*out, t)
+			return
+		}
+		if b, ok := c.Call.Value.(*ssa.Builtin); ok && b.Name() == "len" {
+			*out = append(*out, "len("+render(c.Call.Args[0])+")")
+			return
+		}
+	}
+	if k, ok := v.(*ssa.Const); ok {
+		if n, _ := constInt64(k.Value); n == 0 {
+			return
+		}
+	}
+	*rest = append(*rest, v)
+}
+
+func sameTerms(a, b []string) bool {
+	if len(a) != len(b) {
+		return false
+	}
+	x, y := append([]string{}, a...), append([]string{}, b...)
+	sort.Strings(x)
+	sort.Strings(y)
+	for i := range x {
+		if x[i] != y[i] {
+			return false
+		}
+	}
+	return true
+}
+
+func bufLayout(v ssa.Value) (bufLay, bool) {
+	var lay bufLay
+	v = stripConv(v)
+	// append form
+	if c, ok := v.(*ssa.Call); ok {
+		var chain []*ssa.Call
+		cur := ssa.Value(c)
+		for {
+			cc, ok := stripConv(cur).(*ssa.Call)
+			if !ok {
+				break
+			}
+			b, ok := cc.Call.Value.(*ssa.Builtin)
+			if !ok || b.Name() != "append" || len(cc.Call.Args) != 2 {
+				return lay, false
+			}
+			chain = append([]*ssa.Call{cc}, chain...)
+			cur = cc.Call.Args[0]
+		}
+		mk, ok := stripConv(cur).(*ssa.MakeSlice)
+		if !ok || len(chain) == 0 {
+			return lay, false
+		}
+		if k, isC := constOf(mk.Len); !isC {
+			return lay, false
+		} else if n, _ := constInt64(k.Value); n != 0 {
+			return lay, false
+		}
+		for i, cc := range chain {
+			arg := cc.Call.Args[1]
+			if ms, isMk := sliceBase(arg).(*ssa.MakeSlice); isMk && i == len(chain)-1 && len(chain) > 1 {
+				lay.pad = ms.Len
+				lay.body = cc.Call.Args[0]
+				continue
+			}
+			lay.pieces = append(lay.pieces, render(arg))
+			lay.content = append(lay.content, "len("+render(arg)+")")
+		}
+		return lay, true
+	}
+	// make + copies
+	mk, ok := v.(*ssa.MakeSlice)
+	if !ok {
+		return lay, false
+	}
+	type cp struct {
+		call *ssa.Call
+		off  ssa.Value
+	}
+	var cps []cp
+	for _, ref := range *mk.Referrers() {
+		switch x := ref.(type) {
+		case *ssa.Call:
+			b, ok := x.Call.Value.(*ssa.Builtin)
+			if !ok {
+				return lay, false // handed to another function
+			}
+			switch b.Name() {
+			case "copy":
+				if x.Call.Args[0] != ssa.Value(mk) {
+					return lay, false
+				}
+				cps = append(cps, cp{x, nil})
+			case "len", "cap":
+			default:
+				return lay, false
+			}
+		case *ssa.Slice:
+			if x.High != nil || x.Max != nil {
+				return lay, false
+			}
+			for _, r2 := range *x.Referrers() {
+				cc, ok := r2.(*ssa.Call)
+				if !ok {
+					return lay, false
+				}
+				b, ok := cc.Call.Value.(*ssa.Builtin)
+				if !ok || b.Name() != "copy" || cc.Call.Args[0] != ssa.Value(x) {
+					return lay, false
+				}
+				cps = append(cps, cp{cc, x.Low})
+			}
+		case *ssa.Return, *ssa.DebugRef:
+		case *ssa.ChangeType, *ssa.MakeInterface:
+		default:
+			return lay, false
+		}
+	}
+	sort.SliceStable(cps, func(i, j int) bool { return instrDominatesFlat(cps[i].call, cps[j].call) })
+	copies := map[*ssa.Call]string{}
+	for k, c := range cps {
+		if k+1 < len(cps) && !instrDominatesFlat(c.call, cps[k+1].call) {
+			return lay, false
+		}
+		var off []string
+		var rest []ssa.Value
+		if c.off != nil {
+			lenTerms(c.off, copies, &off, &rest)
+		}
+		if len(rest) != 0 || !sameTerms(off, lay.content) {
+			return lay, false // not written front to back
+		}
+		src := render(c.call.Call.Args[1])
+		lay.pieces = append(lay.pieces, src)
+		lay.content = append(lay.content, "len("+src+")")
+		copies[c.call] = "len(" + src + ")"
+	}
+	// total length = content (+ padding)
+	var tot []string
+	var rest []ssa.Value
+	lenTerms(mk.Len, map[*ssa.Call]string{}, &tot, &rest)
+	if !sameTerms(tot, lay.content) || len(rest) > 1 {
+		return lay, false
+	}
+	if len(rest) == 1 {
+		lay.pad = rest[0]
+	}
+	return lay, true
 }
 
 // ---------------- C14 ----------------
@@ -1239,17 +1422,41 @@ func ruleC14(w *World) {
 		u := callsTo(rf, "Uint64")
 		okk := len(u) == 1 && strings.Contains(render(u[0].Common().Args[0]), "LittleEndian") && rn(u[0].Common().Args[1]) == want[2]
 		w.check(okk, "C14.R2", fnKey(rf)+"/counter-decoding", rf.Pos(), "counter read little-endian from the last 8 bytes", "counter is not LittleEndian.Uint64 of the last 8 bytes")
+		// values may be parked in the fields of the fresh core object before they are used (a worker method shared with
+		// New keys the cipher from the core): field loads are resolved to what was stored there
+		resolveKnownStructs = true
+		defer func() { resolveKnownStructs = false }()
 		for _, c := range callsTo(rf, "NewUnauthenticatedCipher") {
 			// the key material may first be copied into the core's own arrays (a constructor shared with New): an
-			// argument `X.f[:]` stands for what the copy that precedes the call in the same function put there
+			// argument `X.f[:]` stands for what the copy that precedes the call put there — in the same function, or in
+			// the caller when X is the object a helper received
 			through := func(v ssa.Value) string {
 				got := rn(v)
+				// the object and field behind v
+				var obj ssa.Value
+				fld := -1
+				if sl, ok := stripConv(v).(*ssa.Slice); ok && sl.Low == nil && sl.High == nil {
+					if fa, ok := sl.X.(*ssa.FieldAddr); ok {
+						obj, fld = fa.X, fa.Field
+						if up := enteringArg(obj); up != nil {
+							obj = up
+						}
+					}
+				}
 				instrs(rf, func(ins ssa.Instruction) {
 					if cp, ok := ins.(*ssa.Call); ok {
-						if b, ok := cp.Call.Value.(*ssa.Builtin); ok && b.Name() == "copy" && cp.Parent() == c.Parent() && instrDominatesFlat(cp, c.(ssa.Instruction)) {
-							if render(cp.Call.Args[0]) == render(v) && strings.HasSuffix(render(v), "[:]") {
-								if _, isArr := deref(sliceBase(v).Type()).Underlying().(*types.Array); isArr || true {
-									got = rn(cp.Call.Args[1])
+						if b, ok := cp.Call.Value.(*ssa.Builtin); ok && b.Name() == "copy" {
+							if cp.Parent() == c.Parent() && instrDominatesFlat(cp, c.(ssa.Instruction)) && render(cp.Call.Args[0]) == render(v) && strings.HasSuffix(render(v), "[:]") {
+								got = rn(cp.Call.Args[1])
+								return
+							}
+							if obj != nil && cp.Parent() != c.Parent() {
+								if via, ok := enteredBy[c.Parent()]; ok && via.Parent() == cp.Parent() && instrDominatesFlat(cp, via.(ssa.Instruction)) {
+									if sl, ok := stripConv(cp.Call.Args[0]).(*ssa.Slice); ok && sl.Low == nil && sl.High == nil {
+										if fa, ok := sl.X.(*ssa.FieldAddr); ok && fa.X == obj && fa.Field == fld {
+											got = rn(cp.Call.Args[1])
+										}
+									}
 								}
 							}
 						}
